@@ -8,21 +8,24 @@
 (* any moment.  It carries the monitor of the property (CfgUpdateP) and         *)
 (* records every clause an observation violates in `viol`.                      *)
 (*                                                                             *)
-(* Deviation flags (all FALSE = the code after the fix: commits; TRUE = the     *)
-(* behaviour found in the pinned tree, kept for the non-vacuity runs):          *)
+(* Deviation flags (all FALSE = the code after the `fix:` commits; TRUE = a       *)
+(* behaviour found in the pinned tree, kept for the non-vacuity runs: TLC must   *)
+(* refute each of them):                                                        *)
 (*   RestoreWrongDirection  Restore() rewrites the current contents (O2)        *)
 (*   PublishBeforeInit      rd.stream is replaced before Initialize() (O3)      *)
 (*   ContinueAfter405       a non-PUT request is answered 405 and then applied  *)
 (*   ApplyNoBackup          /apply_flows has no Backup/Restore at all           *)
-(*   MetricsToDefaultPath   a pushed metrics config is written over the gateway's *)
-(*                          built-in default metrics file when the user's file   *)
-(*                          does not exist; that file is not part of the backup  *)
-(*   NoReloadAfterRestore   (never in the tree; sensitivity of BehavAtomic) the  *)
-(*                          restored files are not loaded again                 *)
+(*   MetricsToDefaultPath   a pushed metrics config is written over the         *)
+(*                          gateway's built-in default metrics file when the    *)
+(*                          user's file does not exist; that file is not part   *)
+(*                          of the backup                                       *)
+(*   NoReloadAfterRestore   (never in the tree; sensitivity of BehavAtomic)     *)
+(*                          the restored files are not loaded again             *)
 EXTENDS CfgUpdateP, Sequences
 
 CONSTANTS Paths,      \* every path of the configuration tree the model knows
-          Cat,        \* Paths -> 1..5 : flows, quotas, path params, gateway config, metrics config (save order)
+          Cat,        \* Paths -> 1..6 : flows, quotas, path params, gateway config, metrics config (= save order),
+                      \*                6 = the gateway's built-in default metrics file (outside Backup/Restore)
           Txns,       \* probe transaction ids
           RestoreWrongDirection, PublishBeforeInit, ContinueAfter405, ApplyNoBackup, NoReloadAfterRestore,
           MetricsToDefaultPath
